@@ -381,6 +381,24 @@ def _(g, r):
     return (t, body) if t else None
 
 
+@op('element-split-across-entities', needs='dtdok')
+def _(g, r):
+    # WFC: the replacement text of an entity must match 'content' — an element may not begin in one entity and end in another
+    v = r.choice(['two-internal', 'start-in-entity', 'end-in-entity', 'nested', 'three'])
+    if v == 'two-internal':
+        decls, ref = '<!ENTITY zs1 "<zz>"><!ENTITY zs2 "</zz>">', '&zs1;x&zs2;'
+    elif v == 'start-in-entity':
+        decls, ref = '<!ENTITY zs1 "<zz>">', '&zs1;x</zz>'
+    elif v == 'end-in-entity':
+        decls, ref = '<!ENTITY zs2 "</zz>">', '<zz>x&zs2;'
+    elif v == 'nested':
+        decls, ref = '<!ENTITY zs1 "<zz>"><!ENTITY zs2 "</zz>"><!ENTITY zs3 "a&#38;zs1;b"><!ENTITY zs4 "c&#38;zs2;d">', '&zs3;x&zs4;'
+    else:
+        decls, ref = '<!ENTITY zs1 "<zz><yy>"><!ENTITY zs2 "</yy>"><!ENTITY zs5 "</zz>">', '&zs1;x&zs2;&zs5;'
+    t = _with_ref(g, r, decls, ref)
+    return (t, v) if t else None
+
+
 @op('unparsed-entity-ref', needs='dtdok')
 def _(g, r):
     t = _with_ref(g, r, '<!NOTATION zn SYSTEM "n"><!ENTITY zu SYSTEM "u.bin" NDATA zn>', '&zu;')
